@@ -280,9 +280,55 @@ func TestC18Recon(t *testing.T) {
 				}
 			}
 		}
+		// large sizes (not exhaustive): chosen subsets - the lowest and the highest evaluation points, all points, a spread -
+		// for n up to 64 (BLS) / 24 (PS), with thresholds on both sides of every power-of-two boundary a fixed-width
+		// intermediate could hit (x^(t-1) for x up to n)
+		large := func(backend string, ns []int, l int) bool {
+			for _, n := range ns {
+				ts := map[int]bool{}
+				for _, tt := range []int{2, 3, n / 2, 10, 11, 12, 13, 14, 15, 16, 17, n - 1, n} {
+					if tt >= 2 && tt <= n {
+						ts[tt] = true
+					}
+				}
+				for _, tt := range sortedInts(intKeysOf(ts)) {
+					idx++
+					if idx%shards != shard%shards {
+						continue
+					}
+					low, high := seq(1, tt), seq(n-tt+1, n)
+					highDesc := make([]int, len(high))
+					for i := range high {
+						highDesc[i] = high[len(high)-1-i]
+					}
+					var spread []int
+					for x := n; x >= 1 && len(spread) < tt; x -= 2 {
+						spread = append(spread, x)
+					}
+					for x := n - 1; x >= 1 && len(spread) < tt; x -= 2 {
+						spread = append(spread, x)
+					}
+					for _, sub := range [][]int{low, high, highDesc, seq(1, n), spread} {
+						if !yield(c18ReconCase{Backend: backend, N: n, T: tt, Subset: sub, L: l}) {
+							return false
+						}
+					}
+				}
+			}
+			return true
+		}
+		blsNs, psNs := []int{12, 16, 17, 18, 19, 20, 24, 32}, []int{8, 12, 17}
+		if vh.Thorough() {
+			blsNs, psNs = []int{11, 12, 13, 16, 17, 18, 19, 20, 21, 24, 28, 32, 40, 48, 64}, []int{7, 8, 12, 16, 17, 18, 20, 24}
+		}
+		if !large("bls", blsNs, 0) || !large("ps", psNs, 1) {
+			complete = false
+			return
+		}
 	})
-	st.SetExhaustive(complete)
-	st.Note("TestC18Recon: every subset of size >= t in ascending, descending and rotated order for BLS n<=%d and PS n<=%d (L in {1,2}); one fresh random polynomial per (backend,n,t,L)", maxBLS, maxPS)
+	st.SetExhaustive(false)
+	_ = complete
+	st.Note("TestC18Recon: every subset of size >= t in ascending, descending and rotated order for BLS n<=%d and PS n<=%d (L in {1,2}); one fresh random polynomial per (backend,n,t,L); plus chosen subsets (lowest / highest points, all, spread) for BLS n up to 32 (thorough 64) and PS n up to 17 (thorough 24)", maxBLS, maxPS)
 }
 
 // --- cross-check coverage: a single off-polynomial key at every position -----------
@@ -387,4 +433,12 @@ func TestC18Cross(t *testing.T) {
 	})
 	st.SetExhaustive(complete)
 	st.Note("TestC18Cross: for BLS n<=%d and PS n<=%d, every (n,t): honest control accepted; for t<n every position j and every key component off the polynomial (consistently committed) must be rejected by every honest party", maxBLS, maxPS)
+}
+
+func intKeysOf(m map[int]bool) []int {
+	var ks []int
+	for k := range m {
+		ks = append(ks, k)
+	}
+	return ks
 }
